@@ -313,6 +313,54 @@ def placeholders_section(ctx):
             ctx.corr_mismatch(case, "Gallina add_placeholders / pen_components (Interp/Placeholders.v) differ from OutlineTTFCompiler")
 
 
+def notdef_family_section(ctx):
+    """Light / sparse Medium layer / Bold, the sparse layer holding one glyph and NO .notdef, while the default master's
+    .notdef is drawn / a pure composite / blank / absent: the .notdef of every compiled master is compatible with the
+    default's (an empty stand-in in the sparse master counts as compatible, as for any glyph the sparse layer lacks)"""
+    import ufo2ft
+    from fontTools.designspaceLib import SourceDescriptor
+    rng = ctx.subrng("notdef-family")
+    KINDS = ["composite", "blank", "drawn", "absent"]
+    for i in range(ctx.budget(8, 32)):
+        lib = ["ufoLib2", "defcon"][i % 2]
+        kind = KINDS[(i // 2) % 4]
+        fn = ["compileInterpolatableTTFsFromDS", "compileInterpolatableOTFsFromDS"][(i // 8) % 2] if i % 5 else "compileVariableTTF"
+
+        def master(k):
+            d = 30 * k
+            box = [[(Fr(50), Fr(0), "line"), (Fr(450 + d), Fr(0), "line"), (Fr(450 + d), Fr(700), "line"), (Fr(50), Fr(700), "line")]]
+            gl = [{"name": "box", "unicodes": [0x25A1], "width": Fr(500 + d), "contours": box, "components": [], "anchors": []},
+                  {"name": "A", "unicodes": [0x41], "width": Fr(600 + d), "components": [], "anchors": [],
+                   "contours": [[(Fr(0), Fr(0), "line"), (Fr(300 + d), Fr(0), "line"), (Fr(150), Fr(600 + d), "line")]]}]
+            if kind != "absent":
+                gl.insert(0, {"name": ".notdef", "unicodes": [], "width": Fr(500 + d), "anchors": [],
+                              "contours": box if kind == "drawn" else [],
+                              "components": [("box", (Fr(1), Fr(0), Fr(0), Fr(1), Fr(0), Fr(0)))] if kind == "composite" else []})
+            return {"glyphs": gl, "glyphOrder": [g["name"] for g in gl], "kerning": {}, "groups": {}, "lib": {},
+                    "info": {"familyName": "Fam", "styleName": "Master%d" % k, "unitsPerEm": 1000, "ascender": 800, "descender": -200}}
+        masters = [master(0), master(2)]
+        ds, fonts = dsgen.make_designspace(rng, masters, lib)
+        layer = fonts[0].newLayer("mid")
+        tmp = build_font(master(1), lib)
+        gl = layer.newGlyph("A"); gl.width = tmp["A"].width; tmp["A"].drawPoints(gl.getPointPen())
+        sd = SourceDescriptor()
+        sd.font, sd.layerName, sd.location, sd.name = fonts[0], "mid", {"Weight": 500}, "master.mid"
+        sd.familyName, sd.styleName = "Fam", "Mid"
+        ds.sources.insert(1, sd)
+        case = {"function": fn, "lib": lib, "variant": "sparse layer without .notdef; the default master's .notdef is " + kind,
+                "font": jsonable(masters[0]), "last_master": jsonable(masters[-1])}
+        ctx.count(); ctx.klass("%s/sparse layer without .notdef/default .notdef %s" % (fn, kind)); ctx.nontriv(("ndf", i, ctx.scale))
+        try:
+            if fn == "compileVariableTTF":
+                ufo2ft.compileVariableTTF(ds)
+                continue
+            out = [s.font for s in getattr(ufo2ft, fn)(ds).sources]
+        except Exception as e:
+            ctx.spec_failure(case, "%s raised %s: %s\n%s" % (fn, type(e).__name__, e, traceback.format_exc()[-1000:]))
+            continue
+        compare_masters(ctx, case, out, sparse=(1, ["A"]))
+
+
 def per_master_filter_section(ctx):
     """masters whose libs name the SAME filter (one that has an interpolatable form) with DIFFERENT include / exclude lists:
     master 0 asks for composite B only, master 1 for B and C.  Whatever is decomposed must be decomposed in every master."""
@@ -360,6 +408,7 @@ def per_master_filter_section(ctx):
 
 def explore(ctx):
     per_master_filter_section(ctx)
+    notdef_family_section(ctx)
     placeholders_section(ctx)
     nonmatching_section(ctx)
     import ufo2ft
